@@ -140,7 +140,7 @@ package vmm
 //@   ensures miss: !mapped(virtAddr) ==> err == ErrInvalidMapping && phys == 0
 
 //@ func MapRegion(frame mm.Frame, size uintptr, flags PageTableEntryFlag) (page mm.Page, err *kernel.Error)
-//@   property C07
+//@   property C07 C04
 //@   requires wfReserve()
 //@   requires mapCalls < 0x4000000000000000
 //@   modifies earlyReserveLastUsed, mapCalls, mapLogPage, mapLogFrame, mapLogFlags, pageTables
@@ -158,7 +158,7 @@ package vmm
 //@   loop 1 decreases pageCount
 
 //@ func IdentityMapRegion(startFrame mm.Frame, size uintptr, flags PageTableEntryFlag) (page mm.Page, err *kernel.Error)
-//@   property C07
+//@   property C07 C04
 //@   requires mapCalls < 0x4000000000000000
 //@   requires nowrap: size <= 0xfffffffffffff000 && uintptr(startFrame) <= 0xfffffffffffff && uintptr(startFrame) + ((size + 4095) >> 12) >= uintptr(startFrame)
 //@   modifies mapCalls, mapLogPage, mapLogFrame, mapLogFlags, pageTables
